@@ -162,6 +162,37 @@ func VerifC17FailClosed(k int) {
 	verifrt.Assert(h == nil, "no handler is returned without the misconfigured protection")
 }
 
+// VerifC17BuildTwice: the same PluginsConfig value is built twice (main logs
+// the chain and builds it; a reload would build it again): both handlers run
+// the probes in the configured order, and building leaves the configuration as
+// it was written.
+func VerifC17BuildTwice() {
+	verifRegisterProbes()
+	var pc config.PluginsConfig
+	pc.Enabled = true
+	order := [][]int{{0, 1, 2}, {2, 0, 1}, {1, 2, 0}}[verifrt.Choice("order", 3)]
+	for p, kind := range order {
+		pc.Chain = append(pc.Chain, verifPluginConfig(kind, p))
+	}
+	for round := 0; round < 2; round++ {
+		verifTrace = nil
+		h, err := BuildChain(pc, http.HandlerFunc(func(http.ResponseWriter, *http.Request) { verifTrace = append(verifTrace, 1000) }))
+		verifrt.Assert(err == nil && h != nil, "a valid chain builds (again)")
+		for p, kind := range order {
+			verifrt.Assert(pc.Chain[p].Name == verifChainNames[kind], "building a chain leaves the configuration as it was written")
+		}
+		h.ServeHTTP(verifNewRecorder(), verifRequest())
+		want := []int{0, 1, 2, 1000, -3, -2, -1}
+		ok := len(verifTrace) == len(want)
+		for i := range want {
+			if i < len(verifTrace) && verifTrace[i] != want[i] {
+				ok = false
+			}
+		}
+		verifrt.Assert(ok, "every build of the same configuration runs the plugins in the configured order (first listed outermost)")
+	}
+}
+
 // VerifC17AuthGate: custom-auth with ANY configured key of l bytes (including
 // blank and whitespace-only spellings) against a client that presents no key or
 // any key of hl bytes. Either the configuration is refused, or the plugin fails
